@@ -110,12 +110,19 @@ EffTrigger(s, c) ==
     THEN One(s, O(9, <<ReportList(s, c)>>, TRUE))
     ELSE One(s, O(9, <<>>, FALSE))
 
+(* one trigger call naming several collection events: one event report per linked and enabled event, in the      *)
+(* order given; the others are skipped, they do not end the call                                                *)
+EffTriggerMany(s, cs) ==
+  LET live == SelectSeq(cs, LAMBDA c : c \in Dom(s.links) /\ s.links[c].en)
+  IN One(s, O(9, [j \in 1..Len(live) |-> ReportList(s, live[j])], Len(live) > 0))
+
 Eff(s, i) ==
   CASE i.k = "Define" -> EffDefine(s, i.es)
     [] i.k = "Link" -> EffLink(s, i.es)
     [] i.k = "Enable" -> EffEnable(s, i.en, i.cs)
     [] i.k = "Request" -> EffRequest(s, i.c)
     [] i.k = "Trigger" -> EffTrigger(s, i.c)
+    [] i.k = "TriggerMany" -> EffTriggerMany(s, i.cs)
     [] i.k = "Set" -> One([s EXCEPT !.val = [@ EXCEPT ![i.v] = i.x]], O(9, <<>>, FALSE))
 
 (* ---- input alphabets of the generator / the random drivers                                    *)
@@ -134,6 +141,7 @@ Inputs ==
   \cup {[k |-> "Enable", en |-> b, cs |-> cs] : b \in BOOLEAN, cs \in CeLists}
   \cup {[k |-> "Request", c |-> c] : c \in CEX}
   \cup {[k |-> "Trigger", c |-> c] : c \in CEX}
+  \cup {[k |-> "TriggerMany", cs |-> <<a, b>>] : a \in CEX, b \in CE} \cup {[k |-> "TriggerMany", cs |-> <<"c1", "c2", "c1">>]}
   \cup {[k |-> "Set", v |-> v, x |-> x] : v \in VID, x \in {0, 1}}
 
 CoreInputs ==
